@@ -19,5 +19,6 @@ var props = map[string]propCfg{
 	"C20": {Assumptions: []string{"ref.ParseText implements the Cap'n Proto text value grammar as emitted for structs (strict about string literals)", "schemas: aircraftlib only", "the expected field values are read through the generated accessors"}},
 	"C16": {Assumptions: []string{"the version rule (top-level struct truncated / zero-extended, nested objects intact) is the one documented at Struct.CopyFrom; independence is asserted for operations documented or implemented as copies (cross-message assignment, list members, SetStruct, CopyFrom)"}},
 	"C10": {Race: true, Assumptions: []string{"the reference model encodes the documented life cycle of Client / ClientPromise / WeakClient", "programmer errors (double Fulfill, promise cycles, AddRef/WeakRef/Fulfill with a released client) are never generated", "concurrent schedules are sampled, not enumerated"}},
+	"C11": {Race: true, Assumptions: []string{"the delivery model follows the state machine documented at capnp.Promise", "programmer errors (Fulfill/Reject/Join twice, join cycles, using a pipelined client after ReleaseClients) are never generated"}},
 	"C13": {Assumptions: []string{"ref.Pack/ref.Unpack (written from the packing spec, self-tested against the repository's TestPack vectors) are correct"}},
 }
